@@ -37,7 +37,7 @@ REACH = [
 PLAN = {
     "quick": {"shards": 8, "cases": 180000, "timeout_s": 900, "min_evaluations": 1200000,
               "min_counters": {"pairs_vs_reference": 1200000, "matrix_pairs": 2400000, "operator_sets_checked": 120000, "extrema_checked": 12000}},
-    "thorough": {"shards": 16, "cases": 600000, "timeout_s": 3300, "min_evaluations": 8000000,
+    "thorough": {"shards": 16, "cases": 2000000, "timeout_s": 3300, "min_evaluations": 8000000,
                  "min_counters": {"pairs_vs_reference": 8000000, "matrix_pairs": 30000000}},
 }
 ALPHA = "0019aAbz.-_+~^é中"
